@@ -79,3 +79,10 @@ CORPUS += [
 CORPUS += [
     M("capabilities-reset-before-query", D, "        # Send capabilities request and get a response\n        cmd = GetCapabilitiesCommand()", "        self._supported_rate_selects = [AirConditioner.RateSelect.OFF]\n        # Send capabilities request and get a response\n        cmd = GetCapabilitiesCommand()"),
 ]
+# round 10: growth - an offline tolerance that ignores this refresh's responses
+CORPUS += [
+    M("online-tolerates-no-valid-response", "msmart/device/AC/device.py", "        self._online = len(responses) > 0\n",
+      "        self._online = len(responses) > 0 or (self._online and self._supported)\n"),
+    M("n-online-bool-of-responses", "msmart/device/AC/device.py", "        self._online = len(responses) > 0\n",
+      "        self._online = bool(len(responses))\n", "S"),
+]
